@@ -1,6 +1,7 @@
 (** C13 — Operator stop is final until operator start. *)
 From YV Require Import lib.Base model.YWorld model.YProto gen.Consts gen.FsmGen model.YFraming
-  model.YSession proof.SessionFraming proof.SessionC13 proof.SessionC12.
+  model.YSession proof.SessionFraming proof.SessionC13 proof.SessionC12 proof.SessionRP proof.SessionSR
+  proof.SessionSR6 proof.SessionSR7.
 
 (** what a manual stop does, in any world whose timers are well formed (an invariant, see
     [timers_wf_prims]): Idle, automatic start forbidden, every timer cancelled, counter reset *)
@@ -65,3 +66,43 @@ Print Assumptions C13_start_connects.
 Theorem C13_start_noop_when_up : forall w, w_state w = StEstablished -> peering_manual_start w = w.
 Proof. exact start_noop_when_up. Qed.
 Print Assumptions C13_start_noop_when_up.
+
+(** the stopped state IS reached: in every world reachable after start-up without the known
+    departures of C12 ([guarded_run]), if no connection attempt is pending, a manual stop yields
+    the stopped state — and from there [C13_silent_after_stop] applies: nothing is written and no
+    attempt is made, whatever the peer, the timers and the network do, until a manual start.
+    (With an attempt pending the property is refuted: [C13_refuted_pending_attempt].) *)
+Theorem C13_stop_reaches_stopped : forall (D : decoders) cf capl es,
+  guarded_run D (step D (world0 cf capl) EBoot) es ->
+  let w := run D (world0 cf capl) (EBoot :: es) in
+  no_attempt w -> Stopped (peering_manual_stop w).
+Proof.
+  intros D cf capl es Hg w Hna.
+  destruct (single_connection D cf capl es Hg) as ((_ & Htw & Hrp & Hsr) & _). fold w in Htw, Hrp, Hsr.
+  apply stop_reaches_stopped; auto.
+Qed.
+Print Assumptions C13_stop_reaches_stopped.
+
+Theorem C13_stop_then_silent : forall (D : decoders) cf capl es es',
+  guarded_run D (step D (world0 cf capl) EBoot) es ->
+  let w := run D (world0 cf capl) (EBoot :: es) in
+  no_attempt w -> w_out w = [] -> ~ In EManualStart es' ->
+  silent (run_outs D (set_w_out [] (peering_manual_stop w)) es').
+Proof.
+  intros D cf capl es es' Hg w Hna Ho Hns.
+  pose proof (C13_stop_reaches_stopped D cf capl es Hg Hna) as Hs. fold w in Hs.
+  assert (Hs' : Stopped (set_w_out [] (peering_manual_stop w))).
+  { destruct Hs as (A & B & C & E). repeat split; auto; apply C. }
+  apply (C13_silent_after_stop D es' _ Hs' Hns).
+Qed.
+Print Assumptions C13_stop_then_silent.
+
+(** non-vacuity: Established session, then stop *)
+Example C13_stop_reaches_stopped_example :
+  let Dk := mkDec (fun _ => OpOk 65002 90 []) (fun _ _ => UpOk) in
+  let es := [EConnOk 0; EData 0 (repeat 255 16 ++ [0; 29; 1; 4; 0; 0; 0; 90; 10; 0; 0; 2; 0]);
+             EData 0 (repeat 255 16 ++ [0; 19; 4])] in
+  guarded_run Dk (step Dk (world0 cf0 []) EBoot) es /\
+  w_state (run Dk (world0 cf0 []) (EBoot :: es)) = StEstablished /\
+  forallb (fun k => negb (cst_eqb (c_st k) CConnecting)) (w_conns (run Dk (world0 cf0 []) (EBoot :: es))) = true.
+Proof. vm_compute. repeat split. Qed.
